@@ -253,16 +253,27 @@ Fixpoint goval_code_fuel (fuel : nat) (v : goval) : list Z :=
   end.
 Definition goval_code (v : goval) : list Z := goval_code_fuel (S (goval_depth v)) v.
 
-(* validator.go:279-291: expectedValue.Type().ConvertibleTo(actualType) && DeepEqual(Convert(...), enumValue) *)
+(* two's complement wrap of z into kind k *)
+Definition ikind_bits (k : ikind) : Z :=
+  match k with KInt8 | KUint8 => 8 | KInt16 | KUint16 => 16 | KInt32 | KUint32 => 32 | _ => 64 end.
+Definition wrap_kind (k : ikind) (z : Z) : Z :=
+  let m := 2 ^ ikind_bits k in
+  let r := z mod m in
+  if ikind_signed k then (if r <? m / 2 then r else r - m) else r.
+
+(* validator.go:279-291 with values.go equalAfterNumericConversion: a number is converted to the enum value's
+   numeric type only when the conversion round-trips; non-numeric convertible pairs as reflect does *)
 Definition enum_match (d e : goval) : bool :=
   match d, e with
   | VNil, VNil => true                                         (* actualType == nil && data == nil: member *)
   | _, VNil => false                                           (* reflect.TypeOf(enumValue) == nil: continue *)
   | VNil, _ => false                                           (* !expectedValue.IsValid() *)
-  | VInt _ z, VFlt false y => n_eq N (n_of_int N z) y          (* integer -> float64 conversion *)
-  | VInt _ z, VStr _ => false                                  (* integer -> string is a rune conversion: see finding class *)
+  | VInt k z, VFlt false y =>                                  (* integer -> float64 and back *)
+      let f := n_of_int N z in
+      Z.eqb (wrap_kind k (if ikind_signed k then n_to_int64 N f else n_to_uint64 N f)) z && n_eq N f y
+  | VInt _ _, VStr _ => false                                  (* number -> string: never *)
   | VFlt _ x, VFlt false y => n_eq N x y
-  | VJnum lit _ _, VStr s => Z.eqb lit s                       (* json.Number -> string conversion *)
+  | VJnum lit _ _, VStr s => Z.eqb lit s                       (* json.Number -> string conversion (string kinds) *)
   | _, _ => deep_eq d e
   end.
 
